@@ -7,8 +7,9 @@ unit = sys.argv[1]
 mode = sys.argv[2] if len(sys.argv) > 2 else None
 repo = os.environ.get('REPO', '/repo')
 g = gen.generate(repo, 'units/%s.rs' % unit, mode)
-os.makedirs('build', exist_ok=True)
-path = os.path.abspath('build/%s.rs' % unit)
+bdir = os.environ.get('VERIF_BUILD_DIR', 'build')
+os.makedirs(bdir, exist_ok=True)
+path = os.path.abspath(os.path.join(bdir, '%s.rs' % unit))
 open(path, 'w').write(g['text'])
 r = verus.run(path)
 st, errs = verus.classify(r)
